@@ -7,6 +7,14 @@ use acpi_tables::gas::{AccessSize, AddressSpace, GAS};
 use acpi_tables::hest::*;
 use acpi_tables::Aml;
 
+/// an opaque payload object for GenericErrorData::add_data
+struct RawBytes(Vec<u8>);
+impl Aml for RawBytes {
+    fn to_aml_bytes(&self, sink: &mut dyn acpi_tables::AmlSink) {
+        sink.vec(&self.0);
+    }
+}
+
 pub fn address_space(n: u64) -> AddressSpace {
     match n {
         0 => AddressSpace::SystemMemory,
@@ -286,6 +294,7 @@ pub fn run(case: &Sx, out: &mut Vec<Ev>) {
                         7 => d.fru_id = st[1].arr::<16>(),
                         8 => d.fru_text = st[1].arr::<20>(),
                         9 => d.timestamp = st[1].arr::<8>(),
+                        10 => d.add_data(Box::new(RawBytes(st[1].bytes()))),
                         _ => panic!("harness: bad generic error data assignment"),
                     }
                 }
@@ -401,6 +410,10 @@ fn ged_assign(rng: &mut Rng, id: u64) -> Sx {
         6 => l(vec![a(6), a(rng.val(32))]),
         7 => l(vec![a(7), blist(&rng.bytes(16))]),
         8 => l(vec![a(8), blist(&rng.bytes(20))]),
+        10 => {
+            let n = rng.below(40) as usize;
+            l(vec![a(10), blist(&rng.bytes(n))])
+        }
         _ => l(vec![a(9), blist(&rng.bytes(8))]),
     }
 }
@@ -409,7 +422,7 @@ fn rand_data(rng: &mut Rng) -> Sx {
     let k = rng.below(12);
     let st = (0..k)
         .map(|_| {
-            let id = rng.range(1, 9);
+            let id = rng.range(1, 10);
             ged_assign(rng, id)
         })
         .collect();
